@@ -50,6 +50,12 @@ PROGRAMS = [
   ('twin_plain', '@Engine("sqlite");\nA(1, 2); A(2, 3); A(3, 1);\nP(x, y) :- A(x, y);\nQ(x) :- P(x, y), y > 1;\nF(x) = x + 1;\nR(x) :- Q(x);\nT(x, F(x)) :- Q(x), P(x, z), R(x);\n', ['T', 'Q'], None),
   ('twin_annotated', '@Engine("sqlite");\nA(1, 2); A(2, 3); A(3, 1);\nP(x, y) order_by("col0 desc") limit(2) :- A(x, y);\n@NoInject(Q);\nQ(x) distinct :- P(x, y), y > 1;\nF(x) = y * 2 :- A(x, y);\n@Ground(R);\nR(x) :- Q(x);\nR(x) :- A(x, x);\n'
    'T(x, F(x)) :- Q(x), P(x, z), R(x);\n', ['T', 'Q'], None),
+  # the value of a flag used inside an annotation (one text, two defaults); a predicate whose name exceeds 100 characters (alias hints are cut);
+  # two independent iteratively unfolded components in one program
+  ('flag_annotation_results', '@Engine("sqlite");\n@DefineFlag("out", "results");\n@Ground(Report, FlagValue("out"));\nReport(x) :- x in [1, 2];\nT(x) :- Report(x);\n', ['T'], None),
+  ('flag_annotation_archive', '@Engine("sqlite");\n@DefineFlag("out", "archive");\n@Ground(Report, FlagValue("out"));\nReport(x) :- x in [1, 2];\nT(x) :- Report(x);\n', ['T'], None),
+  ('long_name', '@Engine("sqlite");\nA(1, 2); A(2, 3);\nAggregatedVeryLongPredicateNameSegmentVeryLongPredicateNameSegmentVeryLongPredicateNameSegmentThatKeepsGoingAndGoing(x, s? += y) distinct :- A(x, y);\nT(x, s) :- AggregatedVeryLongPredicateNameSegmentVeryLongPredicateNameSegmentVeryLongPredicateNameSegmentThatKeepsGoingAndGoing(x, s), AggregatedVeryLongPredicateNameSegmentVeryLongPredicateNameSegmentVeryLongPredicateNameSegmentThatKeepsGoingAndGoing(s, x);\n', ['T'], None),
+  ('two_iterative_components', '@Engine("sqlite");\n@Recursive(A, 30);\nA(x) :- x = 0 | B(y), x = y + 1, x < 5;\nB(x) :- A(x);\n@Recursive(C, 30);\nC(x) :- x = 0 | D(y), x = y + 1, x < 5;\nD(x) :- C(x);\nT(x) :- A(x) | D(x);\n', ['T'], None),
   ('bigquery', '@Engine("bigquery");\nA(1, [1, 2]); A(2, [3]);\nT(x, y) :- A(x, l), y in l;\nS(x? ArgMax= y -> x) distinct :- T(x, y);\n', ['T', 'S'], None),
 ]
 
